@@ -105,6 +105,16 @@ def lying_files(ctx, count):
         ptxt = ";".join("%d:%x:%x:%s:%s:%x" % (c, lo, hi, code, "-" if j is None else j, g) for (c, lo, hi, code, j, g) in prefs)
         lines.append("ast %s 1,0,1,%d %d/-/-/%s/-" % (dt, gcds, n, ptxt))
         dts.append(dt)
+    # 96-bit timestamps: bounds whose 12-byte raw form lies outside the documented range (all zeros .. all ones: a
+    # range of 2^96 - 1, k = 96 = PHYSICAL_BITS < Unsigned::BITS); the reader must refuse the bound, never decode with it
+    for _ in range(max(8, count // 6)):
+        dt = rng.choice(["micros96", "nanos96"])
+        P, W, kind, pps = C.DTYPES[dt]
+        lo = (1 << (W - 1)) - pps * (1 << 63)
+        hi = lo + rng.choice([(1 << 96) - 1, (1 << 96) - 1, (1 << 96) - 1, (1 << 95), 2 * pps * (1 << 63)])
+        n = rng.choice([1000, 5000])
+        lines.append("ast %s 1,0,1,%d %d/-/-/%d:%x:%x::-:1/-" % (dt, rng.below(2), n, n, lo, hi))
+        dts.append(dt)
     out = []
     for dt, line, a in zip(dts, lines, C.driver(lines)):
         if not a.startswith("ok bytes="):
@@ -113,9 +123,15 @@ def lying_files(ctx, count):
         if len(raw) < 16 or raw[-1] != 0x2e:
             continue
         L = rng.choice([8, 50, 400, 400, 2000])
+        if C.DTYPES[dt][2] == "ts96":
+            L = rng.choice([2000, 2000, 4000])         # enough data for the unchecked path (>= 30 blocks of 96+ bits)
+        if rng.chance(1, 2) or C.DTYPES[dt][2] == "ts96":
+            L += (8 - (len(raw) + L) % 8) % 8          # the file ends on a 64-bit word boundary
         body = rng.choice([b"\xff" * L, b"\xff" * L, b"\x00" * L, bytes(rng.below(256) for _ in range(L)),
                            bytes([rng.below(256)]) + b"\xff" * (L - 1)])
-        size = rng.choice([L, L, L, 0, 1, 0xffffffff, L + 1])
+        if C.DTYPES[dt][2] == "ts96" and rng.chance(3, 4):
+            body = b"\xff" * L
+        size = rng.choice([L, L, L, 0, 1, 0xffffffff, L + 1]) if C.DTYPES[dt][2] != "ts96" else L
         m = bytearray(raw[:-1] + body + b"\x2e")
         m[10:14] = size.to_bytes(4, "big")
         out.append((dt, bytes(m)))
